@@ -345,6 +345,27 @@ def c05(run):
 
 @plan("C06")
 def c06(run):
+    # project items named like a built-in, imported / forward-declared and used by simple name (or not used): the
+    # import wins over the built-in (C05), so it is 'used'; a forward declaration likewise
+    for nm in F.BUILTINS:
+        for decl in ("import", "fwd"):
+            for use in ("simple", "deep", "none"):
+                toks = [D.T("package"), D.T("p", "IDENT"), D.T(";")]
+                if decl == "import":
+                    toks += [D.T("import"), D.T("q", "IDENT"), D.T("."), D.T(nm, "IDENT"), D.T(";")]
+                else:
+                    toks += [D.T("parcelable"), D.T(nm, "IDENT"), D.T(";")]
+                toks += [D.T("parcelable"), D.T("P", "IDENT"), D.T("{")]
+                if use == "simple":
+                    toks += [D.T(nm, "IDENT"), D.T("x", "IDENT"), D.T(";")]
+                elif use == "deep":
+                    toks += [D.T("List"), D.T("<"), D.T(nm, "IDENT"), D.T("["), D.T("]"), D.T(">"), D.T("x", "IDENT"), D.T(";")]
+                else:
+                    toks += [D.T("int"), D.T("x", "IDENT"), D.T(";")]
+                toks.append(D.T("}"))
+                other = [D.T("package"), D.T("q", "IDENT"), D.T(";"), D.T("parcelable"), D.T(nm, "IDENT"), D.T("{"), D.T("}")]
+                run.add([piece_scenario([("a", D.layout(toks, run.rng, mode="spaces")), ("b", D.layout(other, run.rng, mode="spaces"))],
+                                        "builtin-named-items", validate=True)])
     return validation_plan(run, ["imp"], nt_imports, 300, 3000,
         "TLC enumerates family 'imp' (all import lists up to the bound over 5 candidates x forward-declaration lists x "
         "usage mode); plus random projects. Non-trivial = distinct scenario with at least one import or forward declaration.")
